@@ -5,6 +5,10 @@ pub mod c04;
 pub mod c04gen;
 pub mod c04probe;
 pub mod c05;
+pub mod c07;
+pub mod c07core;
+pub mod c07low;
+pub mod c15;
 pub mod c17;
 pub mod pq_common;
 
@@ -12,6 +16,8 @@ pub fn run(id: &str, ctx: &mut Ctx) -> bool {
     match id {
         "C04" => c04::run(ctx),
         "C05" => c05::run(ctx),
+        "C07" => c07::run(ctx),
+        "C15" => c15::run(ctx),
         "C17" => c17::run(ctx),
         _ => return false,
     }
